@@ -143,5 +143,5 @@ func verifC09(maxF, maxS, faultyRuns int) {
 	}
 }
 
-func VerifHarness_C09_quick()    { verifC09(2, 2, 2) }
+func VerifHarness_C09_quick()    { verifC09(2, 3, 2) }
 func VerifHarness_C09_thorough() { verifC09(3, 3, 2) }
